@@ -62,7 +62,11 @@ type Supervisor struct {
 
 func (s *Supervisor) spawn() (*proc, error) {
 	cmd := exec.Command(s.Self, "worker", s.Prop.ID, s.Tier, fmt.Sprint(s.Seed))
-	cmd.Env = append(os.Environ(), "GOMAXPROCS=2", "GOTRACEBACK=all")
+	procs := "GOMAXPROCS=2"
+	if s.Prop.Bubble {
+		procs = "GOMAXPROCS=1" // fewer schedules between quiescent points; workers are processes anyway
+	}
+	cmd.Env = append(os.Environ(), procs, "GOTRACEBACK=all")
 	stdin, err := cmd.StdinPipe()
 	if err != nil {
 		return nil, err
@@ -168,30 +172,37 @@ func crashClass(stderr string) (string, string) {
 	if first == "" {
 		return "exit-without-panic", tail(stderr, 600)
 	}
+	first = strings.Replace(first, "fatal error: runtime: out of memory", "fatal error: out of memory", 1)
 	first = reAddr.ReplaceAllString(first, "0x?")
 	first = reGo.ReplaceAllString(first, "goroutine N")
 	if len(first) > 120 {
 		first = first[:120]
 	}
-	// first frame inside the repository under test
+	// first frame of the code under test or its own dependencies in the crashing goroutine
 	frame := ""
 	for _, l := range lines[idx:] {
 		t := strings.TrimSpace(l)
-		if strings.HasPrefix(t, "github.com/tokenized/bitcoin_reader") {
-			if j := strings.Index(t, "("); j > 0 {
-				t = t[:j]
+		if t == "" && frame == "" && l != lines[idx] {
+			// end of the first goroutine block
+		}
+		if strings.HasPrefix(t, "github.com/tokenized/") {
+			// cut the argument list: the last "(" that is not part of a "(*T)" receiver
+			for j := len(t) - 1; j > 0; j-- {
+				if t[j] == '(' && t[j-1] != '.' {
+					t = t[:j]
+					break
+				}
 			}
-			frame = t
+			if k := strings.Index(t, "({"); k > 0 {
+				t = t[:k]
+			}
+			frame = strings.TrimPrefix(t, "github.com/tokenized/")
 			break
 		}
 	}
 	end := idx + 30
 	if end > len(lines) {
 		end = len(lines)
-	}
-	if strings.Contains(first, "out of memory") {
-		// which allocation hits the limit first depends on what the process allocated before
-		return first, strings.Join(lines[idx:end], "\n")
 	}
 	return first + " @ " + frame, strings.Join(lines[idx:end], "\n")
 }
@@ -454,6 +465,12 @@ func (s *Supervisor) Minimise(o *Outcome, key string, budget time.Duration) (str
 
 	minimised := false
 	var script []json.RawMessage
+	if first.Script == nil && first.Tape == nil && s.Prop.DryScript {
+		// the worker died: obtain the script of that run without running the system under test
+		if res, err := ev.eval(&Command{Op: "one", Index: first.Index, Dry: true}); err == nil && res != nil && len(res.Script) > 0 {
+			first.Script = res.Script
+		}
+	}
 	if first.Script != nil && testScript(first.Script) {
 		// op level minimisation: delete operations (element 0 is the configuration and stays)
 		script = ShrinkScript(first.Script, testScript, budget)
